@@ -147,6 +147,7 @@ class Session:
         CUR["session"] = self
         self.fired = False
         self.cb_script = {}       # (phase, objpath) -> list of actions
+        self.population = {}      # (id(owner), list path) -> the element objects of a random-size object list
 
     # ---------------------------------------------------------------- projection
     def project(self):
@@ -180,6 +181,15 @@ class Session:
             elif k == "objlist":
                 lst = getattr(obj, f["name"])
                 sz[p] = len(lst)
+                if f.get("randsz"):
+                    # the population (the objects the user appended) is remembered at first sight: elements the solver
+                    # hides keep their paths, the exposed length is sz
+                    key = (id(obj), p)
+                    if key not in self.population:
+                        self.population[key] = [lst[i] for i in range(len(lst))]
+                    for i, e_ in enumerate(self.population[key][:f["n"]]):
+                        self._proj_obj("%s[%d]" % (p, i), e_, f["cls"], v, sz)
+                    continue
                 for i in range(min(len(lst), f["n"])):
                     self._proj_obj("%s[%d]" % (p, i), lst[i], f["cls"], v, sz)
             elif k == "list":
@@ -416,6 +426,7 @@ class Session:
         def do():
             lst = self.lookup(op["p"])
             lst.clear()
+            self.population = {k_: v_ for k_, v_ in self.population.items() if k_[1] != op["p"]}
             for _ in range(f["n"]):
                 e_ = self.classes[f["cls"]]()
                 lst.append(vsc.rand_attr(e_) if f["rand"] else vsc.attr(e_))
@@ -491,6 +502,17 @@ class Session:
             ev["mid"] = {"v": pres[-1]["seen"], "sz": pre["sz"]}
         views = {}
         for lp, ld in self.W["lists"].items():
+            if ld["isobj"] and ld["randsz"] and ld["top"] in self.tops:
+                # an object list is viewed as the positions of its exposed objects in the population
+                try:
+                    lst = self.lookup(lp)
+                    owner = self.lookup(lp.rsplit(".", 1)[0])
+                    pop = self.population.get((id(owner), lp), [])
+                    pos = lambda o_: next((i for i, e_ in enumerate(pop) if e_ is o_), 99)
+                    views[lp] = {"len": len(lst), "size": int(lst.size), "index": [pos(lst[i]) for i in range(len(lst))],
+                                 "iter": [pos(x) for x in lst]}
+                except Exception:
+                    views[lp] = {"len": -1, "size": -1, "index": [], "iter": []}
             if not ld["isobj"] and ld["top"] in self.tops:
                 try:
                     views[lp] = self.list_views(lp)
